@@ -42,6 +42,14 @@ func spellings(w uint, v *big.Int, noise int) []spelling {
 	hexU := strings.ToUpper(u.Text(16))
 	hexL := u.Text(16)
 	zeros := strings.Repeat("0", noise%3)
+	if zeros != "" {
+		// redundant leading zeros are decimal digits, not an octal marker (LLLexer: [-]?[0-9]+)
+		sign, abs := "", new(big.Int).Abs(v)
+		if v.Sign() < 0 {
+			sign = "-"
+		}
+		out = append(out, spelling{"dec-leading-zeros", sign + zeros + abs.String(), new(big.Int).Set(v)})
+	}
 	if v.Sign() >= 0 {
 		out = append(out, spelling{"u0x", "u0x" + hexU, new(big.Int).Set(v)})
 		out = append(out, spelling{"u0x-lower", "u0x" + zeros + hexL, new(big.Int).Set(v)})
@@ -337,6 +345,37 @@ func checkModule(t hx.TB, test string, ws []uint, vs []*big.Int, lits []spelling
 	}
 	// i1 prints true/false in llvm-dis
 	hx.HistN("llvm_compared_literals", seen)
+	// the reference reading of the *input* spellings against LLVM's own lexer, for the notations on
+	// which the two are documented to agree (decimal with or without leading zeros, u0x)
+	var sb2 strings.Builder
+	n2 := 0
+	for i := range lits {
+		if k := lits[i].kind; ws[i] > 1 && (strings.HasPrefix(k, "dec") || strings.HasPrefix(k, "u0x")) {
+			fmt.Fprintf(&sb2, "@g%d = global i%d %s\n", i, ws[i], lits[i].text)
+			n2++
+		}
+	}
+	if n2 == 0 {
+		return
+	}
+	rx := llvmx.Canon(sb2.String())
+	if rx.Crashed || !rx.OK {
+		hx.Discard("oracle_unavailable_or_rejects_input_spelling")
+		return
+	}
+	for _, line := range strings.Split(rx.Out, "\n") {
+		mm := reGlobalInt.FindStringSubmatch(line)
+		if mm == nil {
+			continue
+		}
+		i, _ := strconv.Atoi(mm[1])
+		x, _ := new(big.Int).SetString(mm[3], 10)
+		if modW(x, ws[i]).Cmp(modW(lits[i].want, ws[i])) != 0 {
+			// the harness' own reading disagrees with LLVM: a defect of the check, not of the library
+			panic(fmt.Sprintf("harness reference reads i%d %q as %s, LLVM as %s", ws[i], lits[i].text, lits[i].want, x))
+		}
+		hx.HistN("llvm_confirmed_input_readings", 1)
+	}
 }
 
 func TestThroughParserAndLLVM(t *testing.T) {
